@@ -37,6 +37,7 @@ def plan(tier, seed):
         specs += [{"kind": "rand", "i": i, "count": 80, "max_obj": 5, "max_sp": 4, "max_fam": 4} for i in range(16)]
         specs += [{"kind": "deep", "i": i, "count": 150} for i in range(16)]
         specs += [{"kind": "rand", "i": 100 + i, "count": 40, "max_obj": 4, "min_obj": 3, "max_sp": 8, "min_sp": 6, "max_fam": 3} for i in range(8)]
+        specs += [{"kind": "rand", "i": 400 + i, "count": 120, "max_obj": 7, "min_obj": 5, "max_sp": 3, "min_sp": 2, "max_fam": 2, "cheap_hgt": True} for i in range(8)]
         specs += [{"kind": "catsp", "i": 300 + i, "count": 40, "_budget_s": 60} for i in range(8)]
         specs += [{"kind": "deep", "i": 200 + i, "count": 60, "min_obj": 8, "max_obj": 12, "max_fam": 6, "max_sp": 6, "_budget_s": 60} for i in range(8)]
         return specs
@@ -44,6 +45,7 @@ def plan(tier, seed):
     specs += [{"kind": "rand", "i": i, "count": 350, "max_obj": 7, "max_sp": 4, "max_fam": 5, "min_obj": 3} for i in range(32)]
     specs += [{"kind": "deep", "i": i, "count": 1500} for i in range(32)]
     specs += [{"kind": "rand", "i": 100 + i, "count": 300, "max_obj": 4, "min_obj": 3, "max_sp": 9, "min_sp": 6, "max_fam": 3} for i in range(16)]
+    specs += [{"kind": "rand", "i": 400 + i, "count": 700, "max_obj": 7, "min_obj": 5, "max_sp": 4, "min_sp": 2, "max_fam": 3, "cheap_hgt": True} for i in range(16)]
     specs += [{"kind": "catsp", "i": 300 + i, "count": 400, "_budget_s": 900} for i in range(16)]
     specs += [{"kind": "deep", "i": 200 + i, "count": 400, "min_obj": 8, "max_obj": 13, "max_fam": 6, "max_sp": 6, "_budget_s": 900} for i in range(16)]
     return specs
